@@ -303,7 +303,15 @@ class ValueMachine(Machine):
         fp = t['elt'].get('k') == 'fp'
         if op == 'bitcast':
             if n == len(v.lanes):
-                return Vec(v.lanes, eb, fp)
+                import struct
+                out = []
+                for l in v.lanes:
+                    if isinstance(l, float) and not fp and eb == 64:
+                        l = struct.unpack('<Q', struct.pack('<d', l))[0]
+                    elif is_int(l) and fp and eb == 64 and not v.fp:
+                        l = struct.unpack('<d', struct.pack('<Q', l & mask(64)))[0]
+                    out.append(l)
+                return Vec(out, eb, fp)
             if n > len(v.lanes):
                 k = n // len(v.lanes)
                 out = []
@@ -541,6 +549,23 @@ class ValueMachine(Machine):
         return Machine.intrinsic(self, name, args, i)
 
     def call_external(self, name, args, i, fr):
+        from .machine import ASM_MODELS
+        if name in ASM_MODELS and all(isinstance(a, Ptr) and is_int(a.off) for a in args):
+            # assembly kernel: arithmetic not modelled; every value written is an uninterpreted function of everything read
+            reads = []
+            for (ai, kind, off, size) in ASM_MODELS[name]:
+                p = args[ai]
+                if kind == 'R':
+                    self.emit('R', Ptr(p.obj, p.off + off, p.via), size, i.loc, note='asm ' + name)
+                    for o in range(0, size, 8):
+                        reads.append(self.vload_scalar(p.obj, signed(p.off, 64) + off + o, 8))
+            for (ai, kind, off, size) in ASM_MODELS[name]:
+                p = args[ai]
+                if kind == 'W':
+                    self.emit('W', Ptr(p.obj, p.off + off, p.via), size, i.loc, note='asm ' + name)
+                    for o in range(0, size, 8):
+                        self.vstore_scalar(p.obj, signed(p.off, 64) + off + o, 8, sym('asm', name, ai, off + o, *reads))
+            return None
         if name in ('rint', 'ceil', 'floor', 'fabs', 'sqrt', 'cos', 'sin', 'log2', 'exp2') and isinstance(args[0], Sym):
             return sym(name, args[0])
         return Machine.call_external(self, name, args, i, fr)
